@@ -1,4 +1,4 @@
-import LyModel.Yin.Parse
+import LyModel.Yin.Ok
 import LyModel.Text.XmlLemmas
 import LyModel.Text.Utf8Lemmas
 /-! Lexer steps on the shapes the YIN printer writes (helper lemmas; the property theorems are in `Props/C10Yin.lean`). -/
@@ -7,12 +7,6 @@ set_option linter.unusedVariables false
 namespace LyModel.Yin
 open LyModel LyModel.Utf8 LyModel.Generated LyModel.XmlText
 
-/-- ASCII identifier bytes (what YANG identifiers, prefixes and keywords are made of) -/
-def identStartB (b : UInt8) : Bool := (65 ≤ b && b ≤ 90) || (97 ≤ b && b ≤ 122) || b == 95
-def identB (b : UInt8) : Bool := identStartB b || (48 ≤ b && b ≤ 57) || b == 45 || b == 46
-def isIdent : Bytes → Bool
-  | [] => false
-  | b :: r => identStartB b && r.all identB
 /-- what follows a name in printed text: blank, `/`, `>`, `=`, `:` -/
 def termB (b : UInt8) : Bool := b == 32 || b == 47 || b == 62 || b == 61 || b == 58
 
